@@ -774,6 +774,25 @@ impl BCase {
     }
 }
 
+/// value-list count modes of a BATCH: 0 equal; 1 / 6 / 7 short by one / two / all; 2..=5 and 8 surplus lists of every shape
+/// (value-list alternatives as in `batch_vals`: 0 = empty list, 1 = one value, 2 = null + unset)
+const COUNT_MODES: u8 = 9;
+fn count_mode_plan(mode: u8, n: usize) -> Option<(usize, Vec<u8>, &'static str)> {
+    // (lists to drop from the end, surplus lists to append, description)
+    match mode {
+        0 => Some((0, vec![], "as many value lists as statements")),
+        1 if n >= 1 => Some((1, vec![], "one value list fewer than statements")),
+        2 => Some((0, vec![1], "one surplus value list (non-empty)")),
+        3 => Some((0, vec![0], "one surplus value list (empty)")),
+        4 => Some((0, vec![0, 1], "two surplus value lists (empty, then non-empty)")),
+        5 => Some((0, vec![2, 0], "two surplus value lists (non-empty, then empty)")),
+        6 if n >= 2 => Some((2, vec![], "two value lists fewer than statements")),
+        7 if n >= 2 => Some((n, vec![], "no value lists at all for the statements")),
+        8 => Some((0, vec![0, 0, 0], "three surplus value lists (all empty)")),
+        _ => None,
+    }
+}
+
 fn batch_vals(alt: u8) -> Vec<Val> {
     match alt {
         0 => vec![],
@@ -801,12 +820,12 @@ fn run_bcase(cx: &Ctx, c: &BCase) {
         }
         values.push(build_values(&vals).unwrap());
     }
-    match c.count_mode {
-        1 => {
-            values.pop();
-        }
-        2 => values.push(build_values(&batch_vals(1)).unwrap()),
-        _ => {}
+    let Some((drop_n, surplus, mode_text)) = count_mode_plan(c.count_mode, c.stmts.len()) else { return };
+    for _ in 0..drop_n {
+        values.pop();
+    }
+    for alt in &surplus {
+        values.push(build_values(&batch_vals(*alt)).unwrap());
     }
     let serial = (c.opt & 1 != 0).then(|| SERIALS[v % 2]);
     let timestamp = (c.opt & 2 != 0).then(|| TIMESTAMPS[v % TIMESTAMPS.len()]);
@@ -822,7 +841,7 @@ fn run_bcase(cx: &Ctx, c: &BCase) {
     let comp = COMPS[c.comp as usize];
     let case = c.to_json();
     if c.count_mode != 0 {
-        check_refused(cx, "batch", if c.count_mode == 1 { "one value list fewer than statements" } else { "one value list more than statements" }, &b, c.tracing, comp, &case);
+        check_refused(cx, "batch", mode_text, &b, c.tracing, comp, &case);
         return;
     }
     let flags = if serial.is_some() { 0x10 } else { 0 } | if timestamp.is_some() { 0x20 } else { 0 };
@@ -864,12 +883,12 @@ fn run_bcase_adapter(cx: &Ctx, c: &BCase) {
         }
         values.push(tv);
     }
-    match c.count_mode {
-        1 => {
-            values.pop();
-        }
-        2 => values.push(typed_vals(1).0),
-        _ => {}
+    let Some((drop_n, surplus, mode_text)) = count_mode_plan(c.count_mode, c.stmts.len()) else { return };
+    for _ in 0..drop_n {
+        values.pop();
+    }
+    for alt in &surplus {
+        values.push(typed_vals(*alt).0);
     }
     let serial = (c.opt & 1 != 0).then(|| SERIALS[v % 2]);
     let timestamp = (c.opt & 2 != 0).then(|| TIMESTAMPS[v % TIMESTAMPS.len()]);
@@ -880,7 +899,7 @@ fn run_bcase_adapter(cx: &Ctx, c: &BCase) {
     let mut case = c.to_json();
     case["leg"] = json!("batch-adapter");
     if c.count_mode != 0 {
-        check_refused(cx, "batch-adapter", if c.count_mode == 1 { "one value list fewer than statements" } else { "one value list more than statements" }, &b, c.tracing, comp, &case);
+        check_refused(cx, "batch-adapter", mode_text, &b, c.tracing, comp, &case);
         return;
     }
     let flags = if serial.is_some() { 0x10 } else { 0 } | if timestamp.is_some() { 0x20 } else { 0 };
@@ -903,13 +922,17 @@ fn bcases(thorough: bool) -> Vec<BCase> {
                     (d / 3 == 1, (d % 3) as u8)
                 })
                 .collect();
-            for count_mode in 0..3u8 {
-                if count_mode == 1 && n == 0 {
+            for count_mode in 0..COUNT_MODES {
+                if count_mode_plan(count_mode, n).is_none() {
                     continue;
                 }
                 for btype in 0..3u8 {
                     for opt in 0..4u8 {
                         for cons in 0..11u8 {
+                            // the additional mismatch shapes (modes 3..) do not multiply with every consistency / option subset in the quick tier
+                            if count_mode >= 3 && !thorough && !(cons == 1 && (opt == 0 || opt == 3)) {
+                                continue;
+                            }
                             if thorough {
                                 for tracing in [false, true] {
                                     for comp in 0..3u8 {
@@ -1232,7 +1255,7 @@ fn main() {
         vcore::machinery_error(&format!("vacuity: expected all 64/64/4 flag bytes to be produced, saw {q_flags}/{e_flags}/{b_flags}"));
     }
     drop(cx);
-    r.set_rule("E-ENUM. QUERY and EXECUTE (ExecuteV2 with/without result-metadata id; deprecated Execute): all 64 subsets of {values, skip_metadata, page size, paging state, serial consistency, timestamp} x value lists {1 and 2 values over value/null/unset, 65535 values, empty+70000-byte value} x all 11 consistencies x texts {0,1,multi-byte,65535,65536 bytes} / ids {0,1,16,65535 bytes} x tracing x {none,LZ4,Snappy}; field contents (page size, paging state, serial, timestamp, stream id) rotate through boundary alphabets (thorough: 5 rotations each, all consistencies for the huge shapes; quick: huge shapes at 3 consistencies). BATCH: 3 types x every 0..3-statement mix of prepared/unprepared x {0,1,2 values} per statement x {equal, one fewer, one more value lists -> refused} x 4 optional-field subsets x 11 consistencies (thorough: x tracing x compression; quick: rotating); 65535 statements accepted, 65536 refused; every BATCH shape both with pre-serialized value lists and through RawBatchValuesAdapter (typed BatchValues + serialization contexts). Value lists of {0,1,65534,65535,65536,65537,131071,131072} values through every public builder (SerializeRow for Vec / slice / Box / & / HashMap and BTreeMap with String and &str keys via from_serializable, from_closure with cell writers and with appended pre-built rows, add_value loop, null/unset cells, BATCH through RawBatchValuesAdapter and through pre-serialized lists): refusal, or announced count == encoded cells == bound values in the QUERY, EXECUTE and BATCH frames. Bind-marker count vs value count: 0..4 markers x 0..6 values through Vec / slice / Box / & / HashMap / BTreeMap (String and &str keys) / tuples / RawBatchValuesAdapter: refusal unless the counts agree, then exactly the bound values in order. PREPARE, STARTUP (incl. 65535-byte keys, 65535 options; 65536 refused), REGISTER (all subsets, both structs), OPTIONS, AUTH_RESPONSE (null/empty/short/70000 bytes). Thorough adds > 2 GiB strings/bytes (must be errors). Oracle: header (version 4, opcode, stream, flags == options used, length == body size), body parsed by cqlref::proto equals the request in order, compressed body decompresses (cqlref's own LZ4/Snappy decoders) to the uncompressed serialization. distinct_nontrivial = frames with >= 2 optional fields or compression, multi-statement batches, refusals, small requests.");
+    r.set_rule("E-ENUM. QUERY and EXECUTE (ExecuteV2 with/without result-metadata id; deprecated Execute): all 64 subsets of {values, skip_metadata, page size, paging state, serial consistency, timestamp} x value lists {1 and 2 values over value/null/unset, 65535 values, empty+70000-byte value} x all 11 consistencies x texts {0,1,multi-byte,65535,65536 bytes} / ids {0,1,16,65535 bytes} x tracing x {none,LZ4,Snappy}; field contents (page size, paging state, serial, timestamp, stream id) rotate through boundary alphabets (thorough: 5 rotations each, all consistencies for the huge shapes; quick: huge shapes at 3 consistencies). BATCH: 3 types x every 0..3-statement mix of prepared/unprepared x {0,1,2 values} per statement x {equal; short by 1 / 2 / all; surplus non-empty / empty / empty+non-empty / non-empty+empty / 3 empty value lists -> refused exactly when counts differ} x 4 optional-field subsets x 11 consistencies (thorough: x tracing x compression; quick: rotating); 65535 statements accepted, 65536 refused; every BATCH shape both with pre-serialized value lists and through RawBatchValuesAdapter (typed BatchValues + serialization contexts). Value lists of {0,1,65534,65535,65536,65537,131071,131072} values through every public builder (SerializeRow for Vec / slice / Box / & / HashMap and BTreeMap with String and &str keys via from_serializable, from_closure with cell writers and with appended pre-built rows, add_value loop, null/unset cells, BATCH through RawBatchValuesAdapter and through pre-serialized lists): refusal, or announced count == encoded cells == bound values in the QUERY, EXECUTE and BATCH frames. Bind-marker count vs value count: 0..4 markers x 0..6 values through Vec / slice / Box / & / HashMap / BTreeMap (String and &str keys) / tuples / RawBatchValuesAdapter: refusal unless the counts agree, then exactly the bound values in order. PREPARE, STARTUP (incl. 65535-byte keys, 65535 options; 65536 refused), REGISTER (all subsets, both structs), OPTIONS, AUTH_RESPONSE (null/empty/short/70000 bytes). Thorough adds > 2 GiB strings/bytes (must be errors). Oracle: header (version 4, opcode, stream, flags == options used, length == body size), body parsed by cqlref::proto equals the request in order, compressed body decompresses (cqlref's own LZ4/Snappy decoders) to the uncompressed serialization. distinct_nontrivial = frames with >= 2 optional fields or compression, multi-statement batches, refusals, small requests.");
     r.set_exhaustive(true);
     r.sample(json!({"leg":"qe","kind":0,"subset":63,"vals":7,"cons":6,"text":2,"tracing":true,"comp":1,"meaning":"QUERY with all six optional fields, two values (null, value), LOCAL_QUORUM, LZ4, tracing"}));
     r.sample(json!({"leg":"batch","btype":0,"stmts":[[false,1],[true,2]],"count_mode":1,"meaning":"2 statements, 1 value list: must be refused"}));
